@@ -74,6 +74,14 @@ Theorem C19_disconnected_while_buffered_refuted :
 Proof. exact disconnected_while_buffered_refuted. Qed.
 Print Assumptions C19_disconnected_while_buffered_refuted.
 
+Theorem C19_disconnected_while_buffered_async_refuted :
+  exists P C sched, forallb lifecycle P = true /\
+    let c := run pinned true (init P C) sched in
+    outs (sh c) = [Raised DisconnectedError] /\ buf (sh c) = [item_a] /\
+    last (trace pinned true (init P C) sched) [] = [LWake CE; LConnRead false; LRaise DisconnectedError].
+Proof. exact disconnected_while_buffered_async_refuted. Qed.
+Print Assumptions C19_disconnected_while_buffered_async_refuted.
+
 (* receive() blocked in input_event.wait() is never woken by the final disconnect *)
 Theorem C19_no_hang_refuted :
   exists P C, forallb lifecycle P = true /\
@@ -109,3 +117,10 @@ Theorem C19_no_hang_repaired : forall P C k c, mreach repaired (init P C) c -> a
   pc (run repaired false c (repeat 0 (6 * k))) = CDone.
 Proof. exact no_hang_repaired. Qed.
 Print Assumptions C19_no_hang_repaired.
+
+(* ... under ANY schedule that gives the application task enough turns (every fair one) *)
+Theorem C19_no_hang_repaired_fair : forall P C c sched, mreach repaired (init P C) c -> after_final c ->
+  6 * List.length (cscript c) <= turns sched ->
+  pc (run repaired false c sched) = CDone.
+Proof. exact no_hang_repaired_fair. Qed.
+Print Assumptions C19_no_hang_repaired_fair.
